@@ -112,7 +112,9 @@ func (m *Model) Del(k string) {
 func (m *Model) Clear() { m.entries, m.hit, m.miss = nil, 0, 0 }
 
 // BeginSet registers a Set that is about to be invoked.
-func (m *Model) BeginSet(k string, v []byte) { m.stack = append(m.stack, inflight{k, uint(len(k) + len(v))}) }
+func (m *Model) BeginSet(k string, v []byte) {
+	m.stack = append(m.stack, inflight{k, uint(len(k) + len(v))})
+}
 
 // Evicted judges an eviction reported through OnDelete (or inferred from a
 // snapshot) while the innermost in-flight Set is running.
